@@ -3,7 +3,7 @@ from .. import common, gen, mergecorr, oracles, t2
 from . import base
 
 THEOREMS = ['C03_constants', 'C03_binary', 'C03_winner', 'C03_metadata', 'C03_container_priority_applies_below', 'C03_priorities_refine',
-            'C03_every_leaf_path_latest_of_highest', 'C03_merge_is_prioritised_update', 'C03_prediction_sound', 'C03_update_is_pointwise']
+            'C03_every_leaf_path_latest_of_highest', 'C03_merge_is_prioritised_update', 'C03_prediction_sound', 'C03_document_prediction_sound', 'C03_update_is_pointwise']
 
 
 def in_domain(docs):
@@ -15,6 +15,30 @@ def in_domain(docs):
             return all(ok(c) for _, c in n[2])
         return True
     return all(ok(d) and not oracles.nested_priority_conflict(d) for d in docs)
+
+
+def tag_metadata(tag):
+    """user metadata written in a !metadata{{..}} tag (the reserved keys are node arguments, not metadata)"""
+    if not tag or not tag.startswith('!metadata{{'):
+        return {}
+    d = eval('{' + tag[len('!metadata{{'):-2] + '}')
+    return {k: v for k, v in d.items() if k not in ('priority', 'delete', 'allow_new', 'safe')}
+
+
+def gen_meta_history(rng):
+    """several leaves carrying the SAME metadata literal (with or without a priority), later stages competing with some of them and bringing
+    their own metadata (extra keys, conflicting keys)"""
+    from ..reparse import parse_doc
+    lit = rng.choice(["'owner': 'core'", "'owner': 'core', 'priority': 1", "'m1': 1, 'priority': -1", "'m1': 1, 'm2': 2"])
+    keys = ['a', 'b', 'c']
+    texts = ['{' + ', '.join(f"{k}: !metadata{{{{{lit}}}}} {i}" for i, k in enumerate(keys)) + '}']
+    for i in range(rng.randint(1, 3)):
+        k = rng.choice(keys)
+        other = rng.choice(["'note': 'n%d'" % i, "'owner': 'site', 'note': 'n%d'" % i, "'m1': 9, 'priority': %d" % rng.choice([1, -1]), "'m3': %d" % i])
+        texts.append('{%s: !metadata{{%s}} %d}' % (k, other, 10 + i))
+    if rng.random() < 0.3:
+        texts = texts[1:] + texts[:1]
+    return [parse_doc(t) for t in texts]
 
 
 def judge(docs):
@@ -57,14 +81,19 @@ def judge(docs):
         if got is KeyError or base.typed(got) != base.typed(exp):
             return dict(path=list(p), expected=repr(exp), got=repr(None if got is KeyError else got),
                         writers=[dict(stage=i, value=n[2], priority=pr) for i, n, pr in writers], winner_stage=win[0])
-        # metadata keys: none is lost
+        # user metadata of the competing values is combined under the same rule: at every meeting the survivor's entries take precedence,
+        # the other writer's extra keys are kept - nothing lost, nothing invented
         node = oracles.node_lookup(root, p)
-        want = set()
-        for _, n, _ in writers:
-            want.update(oracles.tag_metadata_keys(n[1]))
-        have = set(node.ayns.metadata.keys())
-        if not want <= have:
-            return dict(path=list(p), metadata_keys_lost=sorted(want - have), have=sorted(have))
+        cur_pr, cur_md = None, {}
+        for _, n, pr in writers:
+            md = tag_metadata(n[1])
+            if cur_pr is not None and cur_pr > pr:
+                cur_md = {**md, **cur_md}
+            else:
+                cur_md, cur_pr = {**cur_md, **md}, pr
+        have = dict(node.ayns.metadata)
+        if have != cur_md:
+            return dict(path=list(p), metadata_expected=repr(cur_md), metadata_got=repr(have), lost=sorted(set(cur_md) - set(have)), invented=sorted(set(have) - set(cur_md)))
     return None
 
 
@@ -85,37 +114,57 @@ def gen_three_stage(rng):
     return [parse_doc(t) for t in texts]
 
 
+SPEC_HDR = 'From AY Require Import Model.Eq Spec.Update Spec.UpdateP Proofs.MergePrio Proofs.PrioClass.\nOpen Scope Z_scope.\n'
+SPEC_INCLASS = 'fun c : list node * option node => match predict_prio (fst c) with Some _ => true | None => false end'
+SPEC_FULL = 'fun c : list node * option node => match predict_prio (fst c), snd c with Some d, Some r => pp_eqb d (perase r) | Some _, None => false | None, _ => true end'
+SPEC_VALS = 'fun c : list node * option node => match predict_prio (fst c), snd c with Some d, Some r => plain_eqb (pvals d) (erase r) | Some _, None => false | None, _ => true end'
+DOC_HDR = 'From AY Require Import Model.Eq Model.Loader Spec.Update Spec.UpdateP Proofs.MergePrio Proofs.PrioClass.\nOpen Scope Z_scope.\n'
+DOC_INCLASS = 'fun c : list ynode * option node => match predict_docs (fst c) with Some _ => true | None => false end'
+DOC_FULL = 'fun c : list ynode * option node => match predict_docs (fst c), snd c with Some d, Some r => pp_eqb d (perase r) | Some _, None => false | None, _ => true end'
+DOC_VALS = 'fun c : list ynode * option node => match predict_docs (fst c), snd c with Some d, Some r => plain_eqb (pvals d) (erase r) | Some _, None => false | None, _ => true end'
+
+
+def spec_items(docs):
+    """(stage-tree item, document item, texts, outcome) for one history, or None if it cannot be parsed / serialised"""
+    from .. import ser, loadcorr
+    texts = [gen.render(d) for d in docs]
+    try:
+        b = mergecorr.parse_stages(texts)
+        intern = ser.Interner()
+        stage_terms = [ser.node_term(st, intern) for st in b.stages]
+    except Exception:
+        return None
+    try:
+        root = b.build()
+        got, how = f'(Some {ser.node_term(root, intern)})', 'ok'
+    except Exception as e:
+        got, how = 'None', type(e).__name__
+    item = f'({ser.coq_list(stage_terms)}, {got})'
+    try:
+        ditem = f'({ser.coq_list(loadcorr.ynode_term(d, intern) for d in docs)}, {got})'
+    except ValueError:
+        ditem = f'([], {got})'
+    return item, ditem, texts, how
+
+
 def spec_p_corr(rep, rng, n):
     """the SPEC of C03_priorities_refine against the implementation: histories of mapping-only documents with !force / !weak /
     !metadata{{priority}} tags on scalars and enclosing mappings.  The stages are handed to Coq as the trees the real loader built (all raw
     flags) together with the tree Builder.build returned; Coq decides class membership (Proofs.PrioClass.newz_b, proved sound), folds
     Spec.UpdateP.upd_p over the priority images and compares with the priority image of the built tree.  A difference in the VALUES is a
     concrete failing input of the property; a difference only in node priorities breaks the correspondence obligation."""
-    from .. import ser
     prof = gen.PROFILES['priomap']
-    items, shown = [], []
+    items, shown, ditems = [], [], []
     for i in range(n):
         docs = gen_three_stage(rng) if i % 4 == 0 else gen.gen_history(rng, prof, 2, 5)
-        texts = [gen.render(d) for d in docs]
-        try:
-            b = mergecorr.parse_stages(texts)
-            intern = ser.Interner()
-            stage_terms = [ser.node_term(st, intern) for st in b.stages]
-        except Exception:
+        it = spec_items(docs)
+        if it is None:
             continue
-        try:
-            root = b.build()
-            got = f'(Some {ser.node_term(root, intern)})'
-            rep.count('priority spec: implementation ok')
-        except Exception as e:
-            got = 'None'
-            rep.count('priority spec: implementation ' + type(e).__name__)
-        items.append(f'({ser.coq_list(stage_terms)}, {got})')
-        shown.append(texts)
-    hdr = 'From AY Require Import Model.Eq Spec.Update Spec.UpdateP Proofs.MergePrio Proofs.PrioClass.\nOpen Scope Z_scope.\n'
-    inclass = 'fun c : list node * option node => match predict_prio (fst c) with Some _ => true | None => false end'
-    chk_full = ('fun c : list node * option node => match predict_prio (fst c), snd c with Some d, Some r => pp_eqb d (perase r) | Some _, None => false | None, _ => true end')
-    chk_vals = ('fun c : list node * option node => match predict_prio (fst c), snd c with Some d, Some r => plain_eqb (pvals d) (erase r) | Some _, None => false | None, _ => true end')
+        items.append(it[0])
+        ditems.append(it[1])
+        shown.append(it[2])
+        rep.count('priority spec: implementation ' + it[3])
+    hdr, inclass, chk_full, chk_vals = SPEC_HDR, SPEC_INCLASS, SPEC_FULL, SPEC_VALS
     bad, errors_, wall, cmd = common.run_case_files('c03p', hdr, items, chk_full, shard=150)
     rep.checker_cmds.append(cmd)
     badv, errors3, _, _ = common.run_case_files('c03v', hdr, items, chk_vals, shard=150)
@@ -128,6 +177,21 @@ def spec_p_corr(rep, rng, n):
                not bad and not errors_ and not errors2 and not errors3 and ninc > 0, (f'{len(bad)} disagreements, e.g. {shown[bad[0]]}' if bad else '') + (errors_[0]['log'][-400:] if errors_ else ''))
     for i in badv[:3]:
         rep.violation('the merged values differ from the prioritised update (the latest writer of highest priority) on mapping documents with priority tags', dict(oracle='upd_p spec', input=shown[i]))
+    # the same from the DOCUMENT down (C03_document_prediction_sound): the prediction is computed from the tags written in the text, so it also
+    # covers how the loader spreads a container's priority
+    dchk, dfull, dcls, hdr2 = DOC_VALS, DOC_FULL, DOC_INCLASS, DOC_HDR
+    dbadv, e4, _, _ = common.run_case_files('c03d', hdr2, ditems, dchk, shard=150)
+    dbad, e5, _, _ = common.run_case_files('c03e', hdr2, ditems, dfull, shard=150)
+    dout, e6, _, _ = common.run_case_files('c03f', hdr2, ditems, dcls, shard=150)
+    dinc = len(ditems) - len(dout)
+    rep.count('priority spec: histories inside the document class yz (judged from the text)', dinc)
+    rep.oblige(f'T3 correspondence fold of upd_p over the documents\' images yprio (priorities read off the TEXT: outermost tagged ancestor-or-self) = Builder.build on {dinc} histories',
+               not dbad and not e4 and not e5 and not e6 and dinc > 0, (f'{len(dbad)} disagreements, e.g. {shown[dbad[0]]}' if dbad else '') + (e5[0]['log'][-400:] if e5 else ''))
+    for i in dbadv[:3]:
+        if i not in badv[:3]:
+            rep.violation('the merged values differ from the prioritised update of the documents (a container tag applies to everything below it; latest writer of highest priority)',
+                          dict(oracle='upd_p spec', input=shown[i]))
+    rep.extra.setdefault('correspondence', []).append(dict(label='upd_p spec (documents)', cases=len(ditems), in_class=dinc, disagreements=len(dbad), value_disagreements=len(dbadv)))
     rep.extra.setdefault('correspondence', []).append(dict(label='upd_p spec', cases=len(items), in_class=ninc, disagreements=len(bad), value_disagreements=len(badv), coq_wall_s=round(wall, 1)))
 
 
@@ -158,6 +222,8 @@ def run(rep, tier, rng):
         hist.append(gen.gen_history(rng, prof, 2, 5))
     for _ in range(150 if tier == 'quick' else 3000):
         hist.append(gen_three_stage(rng))
+    for _ in range(60 if tier == 'quick' else 1000):
+        hist.append(gen_meta_history(rng))
     for docs in hist:
         prs = set()
         for d in docs:
@@ -169,6 +235,14 @@ def run(rep, tier, rng):
 
 def replay(data):
     r = data['replay']
+    if 'input' in r and r.get('oracle') == 'upd_p spec':
+        from ..reparse import parse_doc
+        it = spec_items([parse_doc(t) for t in r['input']])
+        b1 = common.run_case_files('c03rp', SPEC_HDR, [it[0]], SPEC_VALS)[0]
+        b2 = common.run_case_files('c03rq', DOC_HDR, [it[1]], DOC_VALS)[0]
+        fails = bool(b1 or b2)
+        print('replay:', 'property FAILS: Builder.build differs from the prioritised update' + (' of the loaded stages' if b1 else ' of the documents as written') if fails else 'property holds', r['input'])
+        return 1 if fails else 0
     if 'input' in r:
         import yaml
         texts = r['input']
